@@ -17,7 +17,9 @@
 (* not finalize at all; it ends with the error result of the bounded TO2     *)
 (* (Stall).  Digests are abstract and collision free: the digest of the      *)
 (* received bytes equals the source digest iff the received bytes are the    *)
-(* source bytes.                                                             *)
+(* source bytes.  Actions: AnnounceLen / AnnounceDig (Announce), Data(n),     *)
+(* Finalize, Stall; Corrupt(field) is the scenario's `cor` applied by the     *)
+(* environment actions SendLen / SendDig / SendChunk below.                   *)
 (***************************************************************************)
 EXTENDS Integers, Sequences, TLC
 
